@@ -387,6 +387,7 @@ def run(check, an: Analysis):
     c08.check_comparison_trigger(check, an, 'S')
     c08.check_comparison_truth(check, an, 'S')
     c08.check_tracked_told(check, an, 'S')
+    c08.check_resource_comparisons(check, an, 'S')
     # the kernel rules every suspending operation rests on (shared; see _scope)
     from . import _scope as _kernel
     _kernel.check_kernel_core(check, an)
